@@ -115,8 +115,50 @@ def rate_exact_hz(d):
 
 
 # ------------------------------------------------------------------ axes given as data / time
+DERIVE = ["ctor", "plus0", "copycopy", "npcopy", "view", "fullslice", "series_time", "positional", "slice1", "step2"]
+SLICED = ("slice1", "step2")
+
+
+def derive_axis(ts, u, how):
+    """the same axis reached through another path (ufunc result, copies, views, slices)"""
+    import copy
+    if how in (None, "ctor", "series_time", "positional"):
+        return u
+    if how == "plus0":
+        return u + 0
+    if how == "copycopy":
+        return copy.copy(u)
+    if how == "npcopy":
+        return np.copy(u, subok=True)
+    if how == "view":
+        return u.view()
+    if how == "fullslice":
+        return u[:]
+    if how == "slice1":
+        return u[1:]
+    if how == "step2":
+        return u[::2]
+    raise KeyError(how)
+
+
 def mk_axis(ts, ad):
-    return ts.UniformTime(length=ad["n"], sampling_interval=ad["dt"], t0=ad["t0"], time_unit=ad["unit"])
+    how = ad.get("derive")
+    if how == "series_time":
+        u = ts.TimeSeries(np.zeros(ad["n"]), sampling_interval=ad["dt"], t0=ad["t0"], time_unit=ad["unit"]).time
+    elif how == "positional":
+        u = ts.UniformTime(None, ad["n"], None, None, ad["dt"], ad["t0"], ad["unit"])
+    else:
+        u = ts.UniformTime(length=ad["n"], sampling_interval=ad["dt"], t0=ad["t0"], time_unit=ad["unit"])
+    return derive_axis(ts, u, how)
+
+
+def expected_axis(ad):
+    """what the given axis is by its description (independent of the constructor under test); None for slices,
+       whose attributes are the subject of the C17 finding"""
+    if ad.get("derive") in SLICED:
+        return None
+    cf = FACT[ad["unit"]]
+    return {"n": ad["n"], "t0": ad["t0"] * cf, "dt": ad["dt"] * cf, "dur": ad["n"] * ad["dt"] * cf, "unit": ad["unit"]}
 
 
 def observe_axis(u):
@@ -163,7 +205,11 @@ def run_action(a):
             if a.get("t0") is not None:
                 kw["t0"] = mk_val(ts, a["t0"])
             kw["time_unit"] = a["unit"]
-            u = ts.UniformTime(**kw)
+            if a.get("positional"):
+                u = ts.UniformTime(kw.get("data"), kw.get("length"), kw.get("duration"), kw.get("sampling_rate"),
+                                   kw.get("sampling_interval"), kw.get("t0"), kw["time_unit"])
+            else:
+                u = ts.UniformTime(**kw)
             o = {"t": "axis", "axis": observe_axis(u)}
         else:
             kw = {}
@@ -175,7 +221,11 @@ def run_action(a):
                 if a.get(k) is not None:
                     kw[kk] = mk_val(ts, a[k])
             kw["time_unit"] = a["unit"]
-            s = ts.TimeSeries(np.zeros(a["len"]), **kw)
+            if a.get("positional"):
+                s = ts.TimeSeries(np.zeros(a["len"]), kw.get("t0"), kw.get("sampling_interval"), kw.get("sampling_rate"),
+                                  kw.get("duration"), kw.get("time"), kw["time_unit"])
+            else:
+                s = ts.TimeSeries(np.zeros(a["len"]), **kw)
             o = {"t": "series", "dt": int(s.sampling_interval), "t0": int(s.t0), "dur": int(s.duration),
                  "rate": float(s.sampling_rate).hex(), "unit": s.time_unit}
             try:
@@ -243,8 +293,8 @@ def intended(a, o):
         unit = resolve_unit(unit, dur, si)
         t0 = val_exact_ps(a["t0"], unit) if a.get("t0") is not None else Fraction(0)
         if data is not None:
-            dob = o.get("data_obs")
-            if dob is None:
+            dob = expected_axis(data)
+            if dob is None or o.get("data_obs") is None:
                 return None
             pat = tuple(int(x is not None) for x in (si, rate, length, dur))
             if pat in UT_DATA_VALID:
@@ -270,8 +320,8 @@ def intended(a, o):
         si, rate, dur = a.get("si"), a.get("rate"), a.get("duration")
         length = a["len"]
         if tm is not None:
-            tob = o.get("time_obs")
-            if tob is None or si or rate or dur or tob["n"] != length:
+            tob = expected_axis(tm)
+            if tob is None or o.get("time_obs") is None or si or rate or dur or tob["n"] != length:
                 return None            # re-specifying a given axis: not covered by the statement's clear cases
             t0 = Fraction(tob["t0"]) if a.get("t0") is None else None
             unit = a["unit"] if a["unit"] is not None else tob["unit"]
@@ -316,9 +366,10 @@ def in_domain(w, a, o):
         return False
     if n is None and ext / w["dt"] > 10 ** 6:
         return False
-    dob = o.get("data_obs") or o.get("time_obs")
-    if dob is not None:       # the given axis must itself be inside the quantifier
-        if dob["dt"] < 1 or abs(dob["t0"]) + dob["n"] * dob["dt"] >= LIM or dob["dur"] != dob["n"] * dob["dt"]:
+    ad = a.get("data") or a.get("time")
+    if ad is not None:        # the given axis must itself be inside the quantifier
+        e = expected_axis(ad)
+        if e is None or e["dt"] < 1 or abs(e["t0"]) + e["n"] * e["dt"] >= LIM:
             return False
     return True
 
@@ -378,6 +429,13 @@ def oracle(a, o):
     w = intended(a, o)
     if w is None or not in_domain(w, a, o):
         return None
+    ad = a.get("data") or a.get("time")
+    if ad is not None:
+        e, g = expected_axis(ad), (o.get("data_obs") or o.get("time_obs"))
+        if any(g[k] != e[k] for k in ("n", "t0", "dt", "dur")) or not g["diff_ok"] or g["first"] != e["t0"]:
+            return Fail("C02/given-axis/%s/attributes" % (ad.get("derive") or "ctor"),
+                        "the axis handed to the constructor (obtained by %s) does not carry the attributes of its samples" % (
+                            ad.get("derive") or "the constructor"), g, e)
     req = {"t0": str(w["t0"]), "dt": str(w["dt"]), "n": w.get("n"), "dur": str(w.get("dur"))}
 
     def fail(stage, what, ax=None):
@@ -439,6 +497,8 @@ def oracle(a, o):
 
 
 # ------------------------------------------------------------------ generators
+SIZES = [1023, 1025, 2049, 4097, 65537, 99991, 524289, 999983, 10 ** 6]     # just above powers of two, primes, the maximum
+
 HARD_FLOATS = [2.2, 1 / 3., 0.81327, 0.1, 0.7, 1.1, 2.675, 1e-3, 3.3, 0.3, 1 / 7., 123.456]
 
 
@@ -475,9 +535,11 @@ def gen_len(rng):
     r = rng.random()
     if r < 0.6:
         return rng.randint(1, 20)
-    if r < 0.85:
+    if r < 0.8:
         return rng.choice([100, 3, 7, 64, 1000, 5000, 4096])
-    return rng.randint(20, 20000)
+    if r < 0.93:
+        return rng.randint(20, 20000)
+    return rng.choice(SIZES)
 
 
 def gen_rate(rng):
@@ -502,14 +564,13 @@ def gen_dur(rng, unit):
 
 def gen_axis_desc(rng):
     unit = rng.choice(UNITS)
-    return {"unit": unit, "t0": rng.choice([0, 0, 3, -2, 10]), "dt": rng.choice([1, 2, 5, 250] if unit not in ("D", "W") else [1, 2]),
+    return {"derive": rng.choice(DERIVE), "unit": unit, "t0": rng.choice([0, 0, 3, -2, 10]), "dt": rng.choice([1, 2, 5, 250] if unit not in ("D", "W") else [1, 2]),
             "n": rng.randint(1, 12)}
 
 
 def rate_of_interval(ts, ps):
-    """the rate attribute the implementation reports for a whole-ps interval"""
-    u = ts.UniformTime(length=2, sampling_interval=int(ps), time_unit="ps")
-    return float(u.sampling_rate)
+    """the float64 nearest to the rate 10^12/ps of a whole-ps interval (computed here, not by nitime)"""
+    return float(Fraction(E12, int(ps)))
 
 
 def gen_action(rng, ts):
@@ -615,7 +676,7 @@ def too_big(a):
         if unit is None and a.get("data"):
             unit = a["data"]["unit"]
         unit = resolve_unit(unit, dur, si)
-        if a.get("length") is not None and a["length"] > 3 * 10 ** 5:
+        if a.get("length") is not None and a["length"] > 10 ** 6:
             return True
         if dur is None and a.get("data") and a.get("length") is None:
             d = Fraction(a["data"]["n"] * a["data"]["dt"] * FACT[a["data"]["unit"]])
